@@ -84,6 +84,13 @@ def main():
         else:
             theorems, problems = H.audit(prop)
         proof_problems.extend(problems)
+        # pins (change detectors, see lean/Indi/Properties/Pins.lean): a broken pin escalates the search, it is not a broken proof
+        pins_broken = False
+        if prop in ("C13", "C10") and not dev_skip:
+            rc_p, out_p = H.lake_build(["Indi.Properties.Pins"])
+            if rc_p != 0:
+                pins_broken = True
+                build_info["pins_broken"] = H.first_errors(out_p)[:3]
     build_info["theorems"] = theorems
     build_s = time.time() - t0
 
@@ -103,7 +110,7 @@ def main():
                 H.evaluate(comp, corpus_cases(prop, comp_name), outcome)
                 H.evaluate(comp, gen(rng, tier), outcome)
             import mkanchors
-            changed_files = mkanchors.changed(H.REPO)
+            changed_files = mkanchors.changed(H.REPO) + (["pin: a source literal a recogniser was written for changed"] if pins_broken else [])
             build_info["library_files_changed"] = changed_files
             if proof_problems or outcome.corr_fail or outcome.harness_errors or changed_files:
                 # failing-input search: the thorough generators (also whenever the library differs from the version the
